@@ -240,6 +240,10 @@ pub fn taxonomy(max_defs: usize) -> BoxedStrategy<Taxonomy> {
                     _ => {}
                 }
                 let has_is = flavour != 255;
+                // names are unique: a second def of the same name would replace the first and could close a cycle
+                while defs.iter().any(|d| d.name == name) {
+                    name.push('x');
+                }
                 defs.push(DefSpec { name, is, has_is, extra });
             }
             Taxonomy { defs, junk_rows }
